@@ -283,6 +283,11 @@ func (tr *fnTrans) sortByName(n string) (*Sort, error) {
 	case "Slice":
 		return SSl, nil
 	}
+	if strings.HasPrefix(n, "Ptr_") { // pointer to a struct: Ptr_<pkg>_<Type>
+		if st, ok := tr.v.structSorts["S_"+n[4:]]; ok {
+			return tr.v.ptrTo(st), nil
+		}
+	}
 	if s, ok := tr.v.prelude.Sorts[n]; ok {
 		return s, nil
 	}
